@@ -1,5 +1,6 @@
 import Fuota.Drv.D3
 import Fuota.Drv.D1
+import Fuota.Drv.D5
 /-! Line-protocol driver: one query per input line, one canonical answer per output line.
     Imports the model files only (no Mathlib), so it links as a native executable.
     Each suite's handlers live in `Fuota/Drv/<suite>.lean`; the first one that recognises a line answers it. -/
@@ -7,6 +8,7 @@ namespace Drv
 
 structure St where
   d1 : D1.S := {}
+  d5 : D5.S := {}
 
 def step (st : St) (line : String) : St × String :=
   let toks := line.trimAscii.toString.splitOn " "
@@ -16,6 +18,9 @@ def step (st : St) (line : String) : St × String :=
   | none =>
   match D1.step st.d1 toks with
   | some (s, o) => ({ st with d1 := s }, o)
+  | none =>
+  match D5.step st.d5 toks with
+  | some (s, o) => ({ st with d5 := s }, o)
   | none => (st, "bad-op")
 
 partial def loop (h : IO.FS.Stream) (out : IO.FS.Stream) (st : St) : IO Unit := do
@@ -31,4 +36,4 @@ def main (args : List String) : IO Unit := do
   let stdin ← IO.getStdin
   let stdout ← IO.getStdout
   let pinned := args.contains "--recon-bit-first"
-  Drv.loop stdin stdout { d1 := { variant := { bitBeforeStore := pinned } } }
+  Drv.loop stdin stdout { d1 := { variant := { bitBeforeStore := pinned } }, d5 := { ffr := args.contains "--ffr" } }
